@@ -138,13 +138,13 @@ def _sd_gen(rng):
     for _ in range(n):
         u = rng.random()
         q.append(0.0 if zero or u < idle else (q[-1] if q and u > 0.93 else rng.uniform(-5e4, 5e4)))
-    return {"q": q, "t": t, "n": rng.randint(1, 400), "k": rng.uniform(0.8, 4.0), "tg": rng.uniform(5, 25),
+    return {"q": q, "t": t, "n": rng.randint(1, 400), "k": rng.uniform(0.8, 4.0), "tg": rng.uniform(5, 25) if rng.random() < 0.8 else rng.choice([10, 18, 12.0]),  # whole-number temperatures also as Python ints (what a JSON file gives)
             "H": rng.uniform(60, 135), "mdot": rng.uniform(0.1, 1.0), "cp": rng.uniform(3500, 4200), "rb": rng.uniform(0.05, 0.3), "ts": rng.uniform(1e8, 5e9),
             "ga": rng.uniform(0.5, 2.0), "gb": rng.uniform(5, 12)}
 
 
 native(f"{G}:BaseGHE._simulate_detailed", _sd_check, _sd_gen, None,
-       bound="real _simulate_detailed on stub GHE fields: 1..40 load steps (incl. exactly-zero idle steps after loaded ones and repeated equal loads), irregular time steps, 1..400 boreholes, monotone affine g(ln t) tables; independent evaluation of the formula")
+       bound="real _simulate_detailed on stub GHE fields: 1..40 load steps (incl. exactly-zero idle steps after loaded ones and repeated equal loads), irregular time steps, 1..400 boreholes, monotone affine g(ln t) tables, ground temperature as float or int; independent evaluation of the formula")
 
 
 # ---- corollaries of the formula (lemmas over the contract; sums handled by explicit induction: base and step) --------
